@@ -334,10 +334,11 @@ func (e *Encoder) entryOr(st *State) *State {
 	return st
 }
 
+// propsOfTag: "C07.name" -> [C07]; "C20+C07.name" -> [C20 C07]
 func propsOfTag(tag string, def []string) []string {
 	if len(tag) >= 3 && tag[0] == 'C' && tag[1] >= '0' && tag[1] <= '9' {
 		if k := strings.Index(tag, "."); k > 0 {
-			return []string{tag[:k]}
+			return strings.Split(tag[:k], "+")
 		}
 	}
 	return def
@@ -642,6 +643,14 @@ func (e *Encoder) genCandidates(fr *frame, li *loopInfo, entry map[*ssa.Phi]*SVa
 				continue
 			}
 			for _, opnd := range []ssa.Value{bo.X, bo.Y} {
+				// len(x) of a sequence that does not change in the loop is a loop-invariant bound
+				if call, ok := opnd.(*ssa.Call); ok {
+					if bi, ok := call.Call.Value.(*ssa.Builtin); ok && bi.Name() == "len" && len(call.Call.Args) == 1 && !inLoop(li, call.Call.Args[0]) {
+						if v, ok := fr.vals[call.Call.Args[0]]; ok && (v.K == KSlice || v.K == KString) {
+							addB("len("+call.Call.Args[0].Name()+")", v.Len, true)
+						}
+					}
+				}
 				if inLoop(li, opnd) {
 					continue
 				}
